@@ -1,6 +1,7 @@
 SPECIFICATION Spec
 CONSTANTS
   Names = {1}
+  NValues = 1
   MaxEnv = 10
   MaxInc = 4
   MaxRaise = 0
